@@ -241,6 +241,11 @@ def bestFit [LT α] [DecidableLT α] (func : List (V3 α) → List (V3 α) → M
     if fr.2 < acc.1 then bestFit func coords ref rest (fr.2, some (fr.1, idx))
     else bestFit func coords ref rest acc
 
+/-- `if vec is not None: self.translate(vec)` -/
+def applyVec (coords : List (V3 α)) : Option (V3 α) → List (V3 α)
+  | none => coords
+  | some v => translate coords v
+
 /-- `Molecule.align_to_ref_coords(func, substructure_indices, reference, vec)` (and the per-conformer
 body of `ConformerEnsemble.align_to_ref_coords`).  Returns the new coordinates, the reported value
 and the index list that won; `none` when no candidate reports less than `hundred` (the code then
@@ -252,11 +257,7 @@ def alignMol [LT α] [DecidableLT α] (func : List (V3 α) → List (V3 α) → 
   match bestFit func centred ref idxs (hundred, none) with
   | (_, none) => none
   | (r, some (rot, idx)) =>
-    let rotated := transform centred rot
-    let final := match vec with
-      | none => rotated
-      | some v => translate rotated v
-    some (final, r, idx)
+    some (applyVec (transform centred rot) vec, r, idx)
 
 end Field
 
